@@ -32,7 +32,7 @@ REQUIRED = ["C13:mul:equal", "C13:div:equal", "C13:marginalize:equal", "C13:cond
 TIMEOUT = {"quick": 900, "thorough": 7200}
 
 OPTS = dict(marks=True, interventions=True, populations=True, constants=True, multiworld=True, qfactors=True,
-            equal_fractions=True)
+            equal_fractions=True, overlap=True)
 PLAIN = dict(marks=True, interventions=True, multiworld=False, populations=False)
 
 
